@@ -6,6 +6,7 @@ import LyModel.Props.C19
 #print axioms LyModel.Props.C19.hash_deterministic
 #print axioms LyModel.Props.C19.hash_depends_on_implemented
 #print axioms LyModel.Props.C19.hash_input_partial
+#print axioms LyModel.Props.C19.hash_input_fixed
 #print axioms LyModel.Props.C19.hash_depends_fails
 #print axioms LyModel.Props.C19.counter_misses_pending_feature_change
 #print axioms LyModel.Props.C19.yl_roundtrip_fails
